@@ -40,7 +40,8 @@ def strat(lines):
   def build(tier):
     audio = st.one_of(st.lists(st.sampled_from(VALS), max_size=9),
                       st.lists(st.sampled_from(VALS), min_size=1, max_size=3).map(lambda l: ("endless", l)))
-    player = st.fixed_dictionaries(dict(audio=audio, chunk=st.integers(1, 4), channels=st.integers(1, 2)))
+    player = st.fixed_dictionaries(dict(audio=audio, chunk=st.one_of(st.integers(1, 4), st.integers(1, 4), st.none()),
+                                        channels=st.integers(1, 2)))
     ctl = st.lists(st.one_of(
       st.tuples(st.sampled_from(OPS), st.integers(0, 3)),
       st.tuples(st.sampled_from(OPS), st.integers(0, 3)),
@@ -52,6 +53,9 @@ def strat(lines):
       ctl=ctl, wait=st.booleans(),
       end=st.sampled_from(["close", "with", "terminate", "close twice"]),
       schedule=st.lists(st.integers(0, 3), max_size=maxs),
+      # chunk=None plays with the documented default chunk size (chunks.size, set small for the case);
+      # the chunk packing strategy is the documented switch chunks.default
+      default_chunk=st.integers(1, 3), strategy=st.sampled_from(["struct", "struct", "array"]),
       lines=st.just(lines)))
   return build
 
@@ -98,13 +102,23 @@ def run_case(c):
   io = None
   tracer = lazy_io._verif_tracer if c["lines"] else None
 
+  chunks = lazy_io.chunks
+  dflt = c.get("default_chunk", 2)
+  saved = (type(chunks).size, chunks.default)
+  type(chunks).size = dflt
+  chunks.default = chunks.array if c.get("strategy") == "array" else chunks.struct
+
   def start(io, p):
     audio = p["audio"]
     if isinstance(audio, tuple):
       data = itertools.cycle(list(audio[1]))
     else:
       data = iter(list(audio))
-    th = io.play(data, chunk_size=p["chunk"], channels=p["channels"])
+    if p["chunk"] is None:
+      th = io.play(data, channels=p["channels"])
+      p = dict(p, chunk=dflt, default_chunk=True)
+    else:
+      th = io.play(data, chunk_size=p["chunk"], channels=p["channels"])
     threads.append(th)
     specs.append(p)
     return th
@@ -149,6 +163,7 @@ def run_case(c):
     S.abort(S.why or "case over")
     for th in threads:
       threading.Thread.join(th, 5)
+    type(chunks).size, chunks.default = saved
   alive = [th for th in threads if threading.Thread.is_alive(th)]
   if alive:
     raise Violation("harness: %d OS threads did not stop" % len(alive))
@@ -219,6 +234,9 @@ def run_case(c):
     labels.append("stop then close")
   if any(isinstance(p["audio"], tuple) for p in specs):
     labels.append("endless audio")
+  if any(p.get("default_chunk") for p in specs):
+    labels.append("default chunk size")
+  labels.append("chunks." + c.get("strategy", "struct"))
   if extra:
     labels.append("spawned mid-history")
   if S.taken:
